@@ -371,6 +371,20 @@ func (m *Machine) callAsm(fr *Frame, fn *ssa.Function, af *AsmFunc, args []Value
 			}
 		case "MOVL":
 			st.write(in, in.args[1], st.read(in, in.args[0], 32))
+		case "MOVB":
+			st.write(in, in.args[1], st.read(in, in.args[0], 8))
+		case "MOVW":
+			st.write(in, in.args[1], st.read(in, in.args[0], 16))
+		case "MOVBLZX", "MOVBQZX", "MOVWLZX", "MOVWQZX", "MOVLQZX",
+			"MOVBLSX", "MOVBQSX", "MOVWLSX", "MOVWQSX", "MOVLQSX":
+			// MOV<src width><dst width><ZX|SX>: widen into a register (a 32-bit result clears the upper half)
+			sw := map[byte]uint8{'B': 8, 'W': 16, 'L': 32}[in.op[3]]
+			dw := map[byte]uint8{'L': 32, 'Q': 64}[in.op[4]]
+			if !isGPR(in.args[1]) {
+				st.unsupported(in, "widening move to a non-register destination")
+			}
+			v := tf.Resize(st.read(in, in.args[0], sw), dw, strings.HasSuffix(in.op, "SX"))
+			st.write(in, in.args[1], v)
 		case "SHLQ", "SHLL", "SHRQ", "SHRL", "SARQ", "SARL":
 			w := uint8(64)
 			if in.op[3] == 'L' {
